@@ -8,10 +8,10 @@ import (
 
 func init() {
 	props["C10"] = &propCheck{
-		lean:    []string{"JSight.Props.C10"},
-		exes:    []string{},
+		lean:    []string{"JSight.Props.C10", "JSight.Props.C10_Build", "JSight.Props.C13_Bind"},
+		exes:    []string{"jsight-build"},
 		run:     runC10,
-		assume:  []string{"the registry theorems are name-level; content of entries under permutation is decided by search", "the schema library is invariant under the order in which types and rules are handed to it (observed)"},
+		assume:  []string{"C10_Build.reorder_decls covers reorderings that move declarations (TYPE, SERVER, TAG, ENUM, MACRO) past any blocks on the catalog model; the relative order of URL / method blocks among themselves, and the content of schema entries under permutation, are decided by search; C13_Bind.order_free covers the Path directives", "the schema library is invariant under the order in which types and rules are handed to it (observed)"},
 		rule:    "generated documents (reference chains between types, enums used inside referenced types, allOf chains of depth >= 2, tags used before definition) x permutations of their top-level blocks (all permutations for <= 5 blocks in the thorough tier, sampled otherwise); non-trivial = accepted document with >= 3 blocks whose permutation differs from the original order; distinct = distinct (document, permutation)",
 		trusted: []string{"the harness-side renderer; catalog equality is judged on the full JSON with every ordered collection compared as a set of entries"},
 	}
@@ -120,6 +120,7 @@ func allPerms(n int, f func([]int)) {
 
 func runC10(ctx *Ctx) {
 	r := ctx.Rng.Fork()
+	buildCorrSuite(ctx, r.Fork(), ctx.Budget(200, 20000))
 	regCorrespondence(ctx, r, ctx.Budget(2000, 60000))
 	n := ctx.Budget(250, 6000)
 	kfSeen := false
@@ -190,6 +191,106 @@ func runC10(ctx *Ctx) {
 		}
 	}
 	ctx.Cov.Component("catalog of a document vs catalogs of its block permutations (specification on the implementation)", ctx.Cov.Evaluations, len(ctx.Violations), "")
+	c10Verdicts(ctx, r)
+}
+
+// c10Verdicts: "… never turns an accepted document into a rejected one or vice versa" on REJECTED documents too:
+// documents with one injected fault, and documents with (parenthesised, so that the order does not change what a
+// macro contains) macros pasting one another in cycles behind entry macros — every order of their top-level blocks
+// must give the same verdict.
+func c10Verdicts(ctx *Ctx, r *Rng) {
+	n := ctx.Budget(120, 6000)
+	cases, bad := 0, 0
+	for i := 0; i < n && bad < 6; i++ {
+		var blocks []string
+		if i%2 == 0 {
+			// macros @m1..@mk: a cycle among some of them, entry macros pasting into it, an unrelated type
+			k := 2 + r.Intn(3)
+			for j := 1; j <= k; j++ {
+				target := j%k + 1 // a cycle through all of them
+				if r.Chance(1, 4) {
+					target = 1 + r.Intn(k)
+				}
+				blocks = append(blocks, fmt.Sprintf("MACRO @m%d\n(\n  TYPE @t%d%d\n  {}\n  PASTE @m%d\n)\n", j, i, j, target))
+			}
+			for e := 0; e < 1+r.Intn(2); e++ {
+				blocks = append(blocks, fmt.Sprintf("MACRO @entry%d\n(\n  PASTE @m%d\n)\n", e, 1+r.Intn(k)))
+			}
+			blocks = append(blocks, "TYPE @plain\n{}\n")
+			if r.Bool() {
+				blocks = append(blocks, "GET /x\n  200 any\n")
+			}
+		} else {
+			m := GenModel(r)
+			base, _ := m.Render(PlainStyle(), true)
+			lines := strings.Split(strings.TrimRight(string(base), "\n"), "\n")
+			ff := injectFaults(lines, r)
+			if len(ff) == 0 {
+				continue
+			}
+			f := ff[r.Intn(len(ff))]
+			bb := splitTopBlocks(strings.Join(f.doc, "\n") + "\n")
+			if len(bb) < 3 {
+				continue
+			}
+			blocks = bb[1:]
+		}
+		if len(blocks) > 7 {
+			blocks = blocks[:7]
+		}
+		render := func(p []int) []byte {
+			var b strings.Builder
+			b.WriteString("JSIGHT 0.3\n")
+			for _, j := range p {
+				b.WriteString(blocks[j])
+			}
+			return []byte(b.String())
+		}
+		id := make([]int, len(blocks))
+		for j := range id {
+			id[j] = j
+		}
+		b0 := RunProject(SingleFile(render(id)), false)
+		if b0.Panic != "" {
+			continue
+		}
+		// blocks that end in free description text change meaning with what follows them: skip those documents
+		if strings.Contains(strings.Join(blocks, ""), "Description") {
+			continue
+		}
+		var perms [][]int
+		if len(blocks) <= ctx.Len(4, 5) {
+			allPerms(len(blocks), func(p []int) { perms = append(perms, append([]int(nil), p...)) })
+		} else {
+			for k := 0; k < ctx.Len(10, 60); k++ {
+				perms = append(perms, permute(r, len(blocks)))
+			}
+		}
+		for _, p := range perms {
+			doc := render(p)
+			b1 := RunProject(SingleFile(doc), false)
+			cases++
+			ctx.Cov.Count(doc, !b0.Accepted())
+			if b1.Panic != "" {
+				continue
+			}
+			if b1.Accepted() != b0.Accepted() {
+				bad++
+				in := projectInput(SingleFile(doc))
+				in["op"] = "permute"
+				in["original"] = hx(render(id))
+				ctx.Violate(Violation{Kind: "wrong-output", Site: "declaration order", What: fmt.Sprintf("reordering the top-level declarations changes the verdict: %s, in the original order: %s", b1.Verdict(), b0.Verdict()),
+					Input: in, Observed: b1.Verdict(), Expected: b0.Verdict(), Signature: "perm-verdict"})
+				break
+			}
+		}
+		if b0.Accepted() {
+			ctx.Cov.Hit("verdict documents: accepted in every order")
+		} else {
+			ctx.Cov.Hit("verdict documents: rejected in every order (" + firstWords(b0.Verdict(), 3) + ")")
+		}
+	}
+	ctx.Cov.Component("documents with a fault or with macro cycles vs their block permutations: same verdict (specification on the implementation)", cases, bad, "")
 }
 
 // freshBlocks: well-formed declarations with fresh names, one of each kind.
